@@ -510,12 +510,22 @@ Proof.
   rewrite Nat2N.inj_succ, N.pow_succ_r'. lia.
 Qed.
 
+Lemma Forall_firstn_ {A} (P : A -> Prop) n : forall l, Forall P l -> Forall P (firstn n l).
+Proof.
+  induction n as [|n IH]; intros l H; cbn [firstn]; [constructor|].
+  destruct l as [|x l]; [constructor|]. inversion H; subst. constructor; auto.
+Qed.
+Lemma Forall_skipn_ {A} (P : A -> Prop) n : forall l, Forall P l -> Forall P (skipn n l).
+Proof.
+  induction n as [|n IH]; intros l H; cbn [skipn]; auto.
+  destruct l as [|x l]; [constructor|]. inversion H; subst. auto.
+Qed.
+
 Lemma file_reader_bytes f off len bs :
   Forall (fun b => b < 256) f -> file_reader f off len = Some bs -> Forall (fun b => b < 256) bs.
 Proof.
   intros Hf H. unfold file_reader in H. destruct (off + len <=? N.of_nat (length f)); [|discriminate].
-  inversion H; subst. apply Forall_forall. intros x Hx. rewrite Forall_forall in Hf. apply Hf.
-  apply firstn_In in Hx. eapply skipn_In; eauto.
+  inversion H; subst. now apply Forall_firstn_, Forall_skipn_.
 Qed.
 
 Theorem file_has_fuel_enough (hash : list N -> N) ver f s :
@@ -530,4 +540,30 @@ Proof.
   pose proof (file_reader_bytes f _ _ nb Hf E) as Hb. apply le_dec_bound in Hb.
   apply file_reader_some in E. rewrite E in Hb. change (N.of_nat (N.to_nat 4)) with 4 in Hb.
   change (256 ^ 4) with 4294967296 in Hb. lia.
+Qed.
+
+(* ---------- the forced hypothesis holds for every multiset of fewer than 2^29 signatures ---------- *)
+Lemma dedup_from_length_le l : forall prev, (length (dedup_from prev l) <= length l)%nat.
+Proof.
+  induction l as [|x r IH]; intros prev; cbn [dedup_from length]; [lia|].
+  destruct (x =? prev); cbn [length]; [specialize (IH prev)|specialize (IH x)]; lia.
+Qed.
+
+Lemma clean_length_le l : (length (clean l) <= length l)%nat.
+Proof.
+  unfold clean, dedup. rewrite (Permutation_length (NSort.Permuted_sort l)).
+  destruct (NSort.sort l) as [|x r]; cbn [length]; [lia|]. pose proof (dedup_from_length_le r x). lia.
+Qed.
+
+Lemma filter_length_le_ {A} (g : A -> bool) (l : list A) : (length (filter g l) <= length l)%nat.
+Proof. induction l as [|x l IH]; cbn [filter length]; [lia|]. destruct (g x); cbn [length]; lia. Qed.
+
+Theorem small_of_few (hash : list N -> N) sigs :
+  N.of_nat (length sigs) < 536870912 -> small (puts hash sigs).
+Proof.
+  intros H p. pose proof (clean_length_le (bucket (puts hash sigs) p)) as H1.
+  assert (H2 : (length (bucket (puts hash sigs) p) <= length sigs)%nat).
+  { unfold bucket. rewrite map_length. rewrite puts_map.
+    etransitivity; [apply filter_length_le_|]. now rewrite map_length. }
+  lia.
 Qed.
